@@ -26,7 +26,8 @@ RULE = ("structural heads (prefix|none) x opcode x second byte enumerated (compl
         "(fusion(iter_decode)) vs stand-alone decode; harness-scheduled pre-emption of one callback by another. "
         "Non-trivial = head accepted as an instruction, or rejected after consuming >= 2 bytes "
         "(operand validation), routine with >= 2 instructions, stream with an instruction following a prefixed one, "
-        "pre-emption pair on different bytes; distinct = distinct (pre, opcode, b2) / distinct buffer.")
+        "pre-emption pair on different bytes; landmark operand values (vectors, window bases, own/fall-through "
+        "address) placed as whole operands for every opcode; distinct = distinct (pre, opcode, b2) / distinct buffer.")
 
 VALIDATING_OPCODES = sorted(set(
     [0x56, 0x5E, 0xED, 0xFD, 0x11]
@@ -466,6 +467,27 @@ def _hyp_emu_history(seed: int, n: int) -> Report:
     return rep
 
 
+def _landmark_shard(task: Tuple[int, int, int, str]) -> Report:
+    """Whole-operand landmark values (vectors, window bases, the instruction's own address, its fall-through address ...)
+    for every opcode: all prefixes in thorough, no prefix + three seed-chosen prefixes per opcode in quick."""
+    shard, nshards, seed, tier = task
+    _preload()
+    rep = Report()
+    for op in range(256):
+        if op % nshards != shard or G.is_pre(op):
+            continue
+        if tier == "quick":
+            pres = [None] + [G.PRE_OPCODES[mix32(seed, op, j) % len(G.PRE_OPCODES)] for j in range(3)]
+        else:
+            pres = list(G.PRES)
+        for pre in pres:
+            h = mix32(seed, op, 0 if pre is None else pre, 0x1A)
+            addr = ADDRS[h % len(ADDRS)] if (h >> 4) % 3 else (h >> 8) & 0xFFFFF
+            for tag, data in G.landmark_buffers(pre, op, addr, seed):
+                check_bytes(data, addr, rep, False, "landmark")
+    return rep
+
+
 def _sched_task(t: Tuple[str, str, int, int]) -> Report:
     """routine / stream / preempt sub-checks (see c01_sched.py).  t = (prop, kind, seed, n)."""
     from . import c01_sched as S
@@ -536,6 +558,7 @@ def run(ctx: Ctx) -> Report:
             [("hist", ctx.shard_seed(200 + i), n_hist // 8) for i in range(8)] + \
             [("emu", ctx.shard_seed(300 + i), n_emu // 8) for i in range(8)]
     reports += ctx.pmap(_raw_task, extra)
+    reports += ctx.pmap(_landmark_shard, [(i, 32, ctx.seed, ctx.tier) for i in range(32)])
     n_rt, n_st, n_pe = ctx.pick(1600, 16000), ctx.pick(3200, 32000), ctx.pick(1600, 12000)
     reports += ctx.pmap(_sched_task, [(PROPERTY, k, ctx.shard_seed(400 + 10 * j + i), n // 8)
                                       for j, (k, n) in enumerate((("routine", n_rt), ("stream", n_st), ("preempt", n_pe)))
